@@ -10,6 +10,11 @@ from fractions import Fraction
 from ..specs import *
 
 
+def first_new_failure(r):
+    """first failure of a bounded result that is not a named known case (those carry a case_id and confirm nothing new)"""
+    return next((f for f in (r.get('failures') or []) if not (isinstance(f, dict) and f.get('case_id'))), None)
+
+
 def result(unit, scope, evals, distinct, failures, exhaustive, t0):
     return {'unit': unit, 'kind': 'bounded', 'scope': scope, 'evaluations': evals, 'distinct_nontrivial': distinct,
             # failures that carry a case id (candidates for known_findings.json) never crowd out the others
@@ -656,6 +661,13 @@ def check_c09(opts):
     evals += 1
     if got != exp:
         fails.append({'case_id': 'int64-state:scan(add,0)', 'pipeline': 'scan(lambda a, i: a + i, 0)', 'input': ['2**62'] * 3, 'expected(plain)': exp, 'got(mux)': str(got)[:160]})
+    # the same root cause for float / bool seeds: the state is a C double / unsigned byte, values are coerced or rejected on the way in
+    for cid, mk, xs in (('typed-state:sum over complex', lambda: rs.math.sum(reduce=True), [1 + 2j, 3 - 1j]),
+                        ('typed-state:scan(max, 0.0) over ints beyond 2**53', lambda: rs.ops.scan(lambda a, i: i if i > a else a, 0.0, reduce=True), [5, 2 ** 53 + 1]),
+                        ('typed-state:scan(a or i, False)', lambda: rs.ops.scan(lambda a, i: a or i, False, reduce=True), [0, 5, 0])):
+        got = run_mux(xs, mk()); exp = run_plain(xs, mk()); evals += 1
+        if got != exp or [type(x) for x in got] != [type(x) for x in exp]:
+            fails.append({'case_id': cid, 'input': [str(x) for x in xs], 'expected(plain)': str(exp), 'got(mux)': str(got)[:160]})
     # operators defined through scan with an object seed built by a factory (dist.update) or a tuple state (progress): one accumulator per key
     try:
         import distogram
@@ -820,6 +832,18 @@ def check_c13(opts):
     evals += 1
     if got != [1.0, 0.5, 0.5, 0.75, 0.75, 1.0]:
         fails.append({'pipeline': 'group_by > map(1/x) > error.map(0.0) > scan(sum)', 'input': [1, 2, 0, 4, 0, 4], 'expected': [1.0, 0.5, 0.5, 0.75, 0.75, 1.0], 'got': got})
+    # the error router inside a tee_map branch (first and later branches): its dead-letter observable completes with the stream
+    for pos in (0, 1):
+        errors, route = rs.error.create_error_router()
+        dead = []
+        errors.subscribe(on_next=lambda e: dead.append(type(e).__name__), on_completed=lambda: dead.append('DONE'))
+        routed = rx.pipe(rs.ops.map(lambda i: 10 // i), route())
+        other = rx.pipe(rs.ops.map(lambda i: i))
+        got = run_mux([1, 0, 2, 0, 4], rs.ops.tee_map(*((routed, other) if pos == 0 else (other, routed)), join='merge'))
+        evals += 1
+        if dead != ['ZeroDivisionError', 'ZeroDivisionError', 'DONE'] or not isinstance(got, list):
+            fails.append({'pipeline': f'tee_map(..., join=merge) with [map(10 // i), route_errors()] as branch {pos}', 'input': [1, 0, 2, 0, 4], 'expected dead letters': ['ZeroDivisionError', 'ZeroDivisionError', 'DONE'],
+                          'got dead letters': dead, 'output': str(got)[:120]})
     # the same for every raising operator (the mux error of each of them carries the store)
     src = [1, 2, 0, 4, 0, 5]
     for opname, mk in (('map', lambda: rs.ops.map(boom([0]))), ('starmap', lambda: rx.pipe(rs.ops.map(lambda i: (i,)), rs.ops.starmap(boom([0])))),
